@@ -13,15 +13,15 @@ def log(*a):
 def _find_factory(binp):
     import subprocess
 
-    def find(features, fam, take, start, dyn=None):
+    def find(features, fam, take, start, dyn=None, count=20000):
         """static structural features, or (dyn=dict(notes=.., dd=.., width=..)) shapes observed in concrete probe runs"""
         if dyn:
             dyn = dict(dyn)
             kind = "finddynsolve" if dyn.pop("_solve", False) else "finddyn"
-            argv = [binp, "kind=" + kind, "take=%d" % take, "start=%d" % start, "count=20000"] + ["%s=%s" % (k, v) for k, v in fam.items()] + ["%s=%s" % (k, v) for k, v in dyn.items()]
+            argv = [binp, "kind=" + kind, "take=%d" % take, "start=%d" % start, "count=%d" % count] + ["%s=%s" % (k, v) for k, v in fam.items()] + ["%s=%s" % (k, v) for k, v in dyn.items()]
         else:
-            argv = [binp, "kind=find", "features=" + ",".join(features), "take=%d" % take, "start=%d" % start, "count=20000"] + ["%s=%s" % (k, v) for k, v in fam.items()]
-        out = subprocess.run(argv, stdout=subprocess.PIPE, text=True).stdout.strip()
+            argv = [binp, "kind=find", "features=" + ",".join(features), "take=%d" % take, "start=%d" % start, "count=%d" % count] + ["%s=%s" % (k, v) for k, v in fam.items()]
+        out = subprocess.run(argv, stdout=subprocess.PIPE, stderr=subprocess.DEVNULL, text=True).stdout.strip()
         return [int(x) for x in out.split(",") if x]
 
     return find
